@@ -388,7 +388,9 @@ func (r *coreRun) runThread(ts ThreadSpec) {
 	hs := map[string]*scopeInfo{"root": {s: r.root, obj: r.objID(r.root)}}
 	for _, op := range ts.Ops {
 		r.s.Yield("op_" + op.Op)
+		r.mu.Lock()
 		r.curOp[ts.Name] = op.Op
+		r.mu.Unlock()
 		h := hs[op.H]
 		if h == nil && op.H != "" && op.Op != "sub" {
 			h = hs["root"]
@@ -544,7 +546,10 @@ func newCoreRun(sc *Scenario, withSched bool) *coreRun {
 					r.ticker.Reset(time.Nanosecond)
 				}
 			case "cl_done":
-				if r.curOp[st.Thread] == "rootclose" {
+				r.mu.Lock()
+				isRootClose := r.curOp[st.Thread] == "rootclose"
+				r.mu.Unlock()
+				if isRootClose {
 					r.rootDone = true
 				}
 			case "rr_begin":
